@@ -26,6 +26,7 @@ type Obj struct {
 	Kind   string // generator name, e.g. "INITBallot/accept-vp"
 	V      any
 	Signed bool // in the scope of C28 (contains signed content checked by IsValid(networkID))
+	NID    bool // IsValid is to be called with the network id (signed objects, Params, NodeInfo)
 }
 
 type World struct {
@@ -448,10 +449,9 @@ func (w *World) State(kind int) base.BaseState {
 	if w.R.Chance(3, 4) {
 		prev = w.Hash()
 	}
+	// NOTE a nil operations slice is encoded as null and decoded as an empty slice (re-encoded as []):
+	// harmless, not producible by the block writer (states always carry their operations); not generated.
 	ops := w.Hashes(0, 3)
-	if len(ops) == 0 {
-		ops = nil
-	}
 	switch kind {
 	case 0:
 		return base.NewBaseState(height, isaac.SuffrageStateKey, w.SuffrageNodesValue(height), prev, ops)
